@@ -23,6 +23,26 @@ if ! go build $RACE -tags verif -overlay "$BDIR/overlay-$id.json" -modfile "$BDI
   exit 2
 fi
 export VERIF_BDIR=$BDIR
+# Free-running race pass (checks that have a RACEPASS marker): the same checker built with -race runs its
+# concurrent body (<ID>_RACE_PASS=1: goroutines exercising the code on PRIVATE objects, no intended sharing);
+# the detector's verdict is handed to the main run, which reports it like any other oracle. A cooperative
+# exploration cannot see unsynchronised accesses to shared scratch state; the race detector sees them whatever the timing.
+if [ -f "checks/$id/RACEPASS" ] && [ -z "$RACE" ]; then
+  rp=1; for a in "$@"; do case "$a" in --replay|-replay) rp=0;; esac; done
+  if [ $rp = 1 ]; then
+    if go build -race -tags verif -overlay "$BDIR/overlay-$id.json" -modfile "$BDIR/go.mod" -o "$BDIR/bin/$id-race" "./checks/$id" 2> "$BDIR/build-$id-race.log"; then
+      rm -f "$BDIR"/race-$id.*
+      IDU=$(echo "$id" | tr 'a-z' 'A-Z')
+      env "${IDU}_RACE_PASS=1" VERIF_NOEVIDENCE=1 VERIF_SUPERVISED=1 GORACE="exitcode=66 halt_on_error=1 log_path=$BDIR/race-$id" "$BDIR/bin/$id-race" -tier "$TIER" > "$BDIR/racepass-$id.out" 2>&1
+      rrc=$?
+      if [ $rrc = 66 ]; then export VERIF_RACE_PASS="race:$(ls "$BDIR"/race-$id.* 2>/dev/null | head -1)";
+      elif [ $rrc = 0 ]; then export VERIF_RACE_PASS="clean";
+      else export VERIF_RACE_PASS="failed:$rrc:$BDIR/racepass-$id.out"; fi
+    else
+      cat "$BDIR/build-$id-race.log"; echo "MACHINERY-ERROR: -race build of checker $ID failed"; exit 2
+    fi
+  fi
+fi
 EVID="$VERIF_DIR/evidence/$ID.json"
 REPLAY=0
 for a in "$@"; do case "$a" in --replay|-replay) REPLAY=1;; esac; done
